@@ -7,6 +7,8 @@ of harness/props/C19.py.)
 Python-level loop / one call of a recursive parser function.
 -/
 import TonVerif.Proofs.Cost
+import TonVerif.Proofs.CostTl
+import TonVerif.Generated.TlCostTable
 
 namespace TonVerif.Properties.C19
 open TonVerif TonVerif.Model TonVerif.Model.Cost TonVerif.Proofs.Cost
@@ -68,19 +70,55 @@ theorem c19_tl_vector_guard (rec : Bytes → Option Nat → Tl.Res) (data : Byte
     Tl.fieldStep rec data i (.vec elem) = .raised 0 true := by
   simp [Tl.fieldStep, h]
 
-/-
-FULL STATEMENT (not proved):  c19_tl_fuel :
-  ∀ tbl (ranked: the bare-type references of tbl are acyclic) data mode,
-    Tl.deser tbl ((data.length / 4 + 2) * (tbl.length + 2)) data mode ≠ .oof   ∧   steps ≤ K(tbl) · (data.length + 1).
-Proved below: every `oof` of the model is an exhaustion of the recursion-DEPTH fuel — none of the loops (fields,
-vector, re-parse) can run out of its own fuel, for every table and every input.  Missing: the bound on the nesting depth
-(each boxed level consumes ≥ 4 bytes, bare levels are bounded by the rank) and the summation over the call tree.  The
-driver never reported `oof` with the fuel above on any generated input (sampled).
--/
-/-- see the comment above -/
+/-- every `oof` (out of fuel) of the TL model is an exhaustion of the recursion-DEPTH fuel — none of the loops (fields,
+vector, re-parse) can run out of its own fuel, for every table with non-empty ids and every input.  (Superseded by
+`c19_tl_total`, which also bounds the depth; kept because it needs no side condition on bare references.) -/
 theorem c19_tl_fuel_partial (tbl : Tl.Table) (h : IdsNonempty tbl) (f : Nat) (data : Bytes) (mode : Option Nat)
     (ho : Tl.deser tbl (f + 1) data mode = .oof) : ∃ b m, Tl.deser tbl f b m = .oof :=
   oof_from_depth tbl h f data mode ho
+
+/-- TOTAL WORK of `TlSchemas.deserialize(data)` / `deserialize(data, False, schema.args)`: for EVERY schema table whose
+constructor ids have 4 bytes (`Ids4`) and whose bare references form no cycle (`NoBareCycle tbl R`: chains of at most
+`R` bare references; both decidable), EVERY byte string and boxed or bare start, the model with recursion-depth fuel
+`tlFuel R len = (len/4 + 1)(R + 2)` (or more) never runs out of fuel, and the number of steps (calls + field-loop +
+vector-loop + re-parse-loop iterations) is at most `tlK tbl R · (len + 1)²` — a function of the input LENGTH and of a
+table constant only, never of a declared vector length or bytes length read from the input.
+(Depth: a recognised boxed object consumed its 4-byte id; between two boxed levels there are ≤ R+1 bare levels.  Sum:
+every call does ≤ a + w·(bytes it consumed) steps with `w = (len+1)·K`; vectors are paid by their 4-byte length word
+because the guard of the F16 repair bounds the declared length by the remaining bytes; the re-parse loop consumes
+disjoint parts of the content.  The square is real: elements of a vector may consume nothing, see `quadTable` below.) -/
+theorem c19_tl_total (tbl : Tl.Table) (hid : Tl.Ids4 tbl) (R : Nat) (hc : Tl.NoBareCycle tbl R) (data : Bytes)
+    (mode : Option Nat) (f : Nat) (hf : Tl.tlFuel R data.length ≤ f) :
+    Tl.deser tbl f data mode ≠ .oof ∧
+    (Tl.deser tbl f data mode).steps ≤ Tl.tlK tbl R * ((data.length + 1) * (data.length + 1)) :=
+  TonVerif.Proofs.CostTl.deser_total tbl hid R hc data mode f hf
+
+/-- the side conditions hold for the schema table bundled with the library (829 rows, regenerated from
+`pytoniq_core/tl/schemas/*.tl` on every run): ids have ≥ 4 bytes, bare references nest at most 4 deep, no cycle. -/
+theorem c19_tl_bundled_table : Tl.Ids4 Generated.TlCost.table ∧ Tl.NoBareCycle Generated.TlCost.table 4 := by
+  decide +kernel
+
+/-- … so for the bundled table the bound holds for every byte string, unconditionally. -/
+theorem c19_tl_total_bundled (data : Bytes) (mode : Option Nat) :
+    Tl.deser Generated.TlCost.table (Tl.tlFuel 4 data.length) data mode ≠ .oof ∧
+    (Tl.deser Generated.TlCost.table (Tl.tlFuel 4 data.length) data mode).steps ≤
+      Tl.tlK Generated.TlCost.table 4 * ((data.length + 1) * (data.length + 1)) :=
+  c19_tl_total _ c19_tl_bundled_table.1 4 c19_tl_bundled_table.2 data mode _ (Nat.le_refl _)
+
+/-- the table `a x:a = A;` (a bare reference to itself) -/
+def cyclicTable : Tl.Table := [⟨[1, 2, 3, 4], [⟨none, .sub (some 0)⟩]⟩]
+
+/-- the side condition `NoBareCycle` is necessary: on a table with a bare cycle the bare parse of the EMPTY input never
+returns, whatever the fuel (in Python: unbounded recursion, ended by RecursionError).  Only reachable with a
+user-supplied table — the bundled one has no such cycle (`c19_tl_bundled_table`). -/
+theorem c19_tl_bare_cycle_diverges (f : Nat) : Tl.deser cyclicTable f [] (some 0) = .oof := by
+  induction f with
+  | zero => rfl
+  | succ n ih =>
+    simp only [Tl.deser, Tl.deserLevel, Tl.fieldsOf, cyclicTable, List.getElem?_cons_zero, Tl.fieldsLoop, Tl.fieldStep,
+      List.drop_nil]
+    simp only [cyclicTable] at ih
+    rw [ih]
 
 /-! ## Non-vacuity and concrete instances -/
 
@@ -114,9 +152,27 @@ def sharedDict : DDag := [⟨[false, false], [], true⟩, ⟨[false, false], [0,
   ⟨[false, false], [2, 2], true⟩]
 example : dictCalls sharedDict 5 3 3 = .done 30 ∧ treeSize sharedDict 5 3 = 15 := by decide
 
+/-- `NoBareCycle` separates the two tables -/
+example : ¬ Tl.NoBareCycle cyclicTable 7 := by decide
+
+/-- the square is attained (up to the constant): `s v:(vector e) = S; e = E; b x:bytes = B;` — a vector of a bare type
+without fields passes the guard with `length ≤ remaining bytes` and iterates `length` times consuming nothing; a `bytes`
+field whose content is a row of `k` such 8-byte objects, the j-th declaring `8(k-1-j)` elements (= the bytes after it),
+is re-parsed at every 8th offset.  Doubling the input (48 → 88 → 168 bytes) quadruples the steps (176 → 751 → 3101);
+the bound of `c19_tl_total` for this table is `8·(len+1)²`. -/
+def quadTable : Tl.Table := [⟨[1, 0, 0, 0], [⟨none, .vec (some 1)⟩]⟩, ⟨[2, 0, 0, 0], []⟩, ⟨[3, 0, 0, 0], [⟨none, .bytes true⟩]⟩]
+def quadInput (k : Nat) : Bytes :=
+  [3, 0, 0, 0, 8 * k] ++ (List.range k).flatMap (fun j => [1, 0, 0, 0, 8 * (k - 1 - j), 0, 0, 0]) ++ [0, 0, 0]
+example : Tl.Ids4 quadTable ∧ Tl.NoBareCycle quadTable 1 ∧ Tl.tlK quadTable 1 = 8 := by decide
+example : (quadInput 5).length = 48 ∧ Tl.deser quadTable (Tl.tlFuel 1 48) (quadInput 5) none = .ok 48 176 := by decide +kernel
+example : (quadInput 10).length = 88 ∧ Tl.deser quadTable (Tl.tlFuel 1 88) (quadInput 10) none = .ok 88 751 := by decide +kernel
+example : (quadInput 20).length = 168 ∧ Tl.deser quadTable (Tl.tlFuel 1 168) (quadInput 20) none = .ok 168 3101 := by
+  decide +kernel
+
 /-- TL: one schema `a:(vector boxed)`; declared length 2^22 over 0 bytes is rejected by the guard in 2 steps -/
 def tlTable : Tl.Table := [⟨[1, 2, 3, 4], [⟨none, .vec none⟩]⟩]
 example : IdsNonempty tlTable := by intro s hs; simp [tlTable] at hs; subst hs; simp
+example : Tl.Ids4 tlTable ∧ Tl.NoBareCycle tlTable 0 := by decide
 example : Tl.deser tlTable 3 [1, 2, 3, 4, 0, 0, 64, 0] none = .raised 2 true := by decide
 
 end TonVerif.Properties.C19
